@@ -118,17 +118,29 @@ func main() {
 	}
 	seed, _ := strconv.Atoi(os.Getenv("VERIF_SEED"))
 
-	var cfgs map[string]checkCfg
-	b, err := os.ReadFile(filepath.Join(root, "checks.json"))
-	if err != nil {
-		die(2, "read checks.json: %v", err)
-	}
-	if err := json.Unmarshal(b, &cfgs); err != nil {
-		die(2, "parse checks.json: %v", err)
-	}
-	cfg, ok := cfgs[id]
+	cfg, ok := loadCfg(id)
 	if !ok {
-		die(2, "unknown property %s", id)
+		die(2, "unknown property %s (no checks/%s/check.json)", id, strings.ToLower(id))
+	}
+	if extra := os.Getenv("VERIF_EXTRA_OVERLAY"); extra != "" {
+		// mutation testing without touching /repo: {"<repo-relative path>": "<absolute file>"}
+		b, err := os.ReadFile(extra)
+		if err != nil {
+			die(2, "VERIF_EXTRA_OVERLAY: %v", err)
+		}
+		var m map[string]string
+		if err := json.Unmarshal(b, &m); err != nil {
+			die(2, "VERIF_EXTRA_OVERLAY: %v", err)
+		}
+		if cfg.Overlay == nil {
+			cfg.Overlay = &overlayCfg{}
+		}
+		if cfg.Overlay.Add == nil {
+			cfg.Overlay.Add = map[string]string{}
+		}
+		for k, v := range m {
+			cfg.Overlay.Add[k] = v
+		}
 	}
 	t0 := time.Now()
 	buildDir := filepath.Join(root, ".build")
@@ -432,6 +444,24 @@ func main() {
 	if len(distinct) < minD || merged.Evaluations == 0 {
 		die(2, "INFRA vacuous exploration: evaluations=%d distinct=%d", merged.Evaluations, len(distinct))
 	}
+}
+
+// loadCfg reads checks/<id>/check.json (member "driver").
+func loadCfg(id string) (checkCfg, bool) {
+	var f struct {
+		Driver checkCfg `json:"driver"`
+	}
+	b, err := os.ReadFile(filepath.Join(root, "checks", strings.ToLower(id), "check.json"))
+	if err != nil {
+		return checkCfg{}, false
+	}
+	if err := json.Unmarshal(b, &f); err != nil {
+		die(2, "parse checks/%s/check.json: %v", strings.ToLower(id), err)
+	}
+	if f.Driver.Pkg == "" {
+		f.Driver.Pkg = "./checks/" + strings.ToLower(id)
+	}
+	return f.Driver, true
 }
 
 func tail(s string, n int) string {
